@@ -349,3 +349,14 @@ package dt
 //@   ensures size: len(s.hash) == (old(s.hash) == nil ? 0 : old(len(s.hash))) - (result ? 1 : 0)
 //@   ensures kept: !result && s.list != nil ==> s.list.elems == old(s.list.elems)
 //@   ensures removed: result && s.list != nil ==> s.list.elems == remove(old(s.list.elems), old(cast(s.hash[in], "*Element").idx))
+
+// The list iterator step (ordered sets iterate through it): the cursor is the
+// root or a member; each call moves it to the next member in list order and
+// yields that member's value; after the last member it reports io.EOF (and
+// stands on the root again).
+//@ func (*List).Producer$1
+//@   props C16 C18
+//@   requires l != nil && wf(l) && current != nil && (current == l.root || member(l, current))
+//@   modifies cell(current)
+//@   ensures more: old(pos(l, current)) < len(l.elems) ==> result1 == nil && current == l.elems[old(pos(l, current))] && result0 == current.item
+//@   ensures end: old(pos(l, current)) >= len(l.elems) ==> result1 == io_EOF && current == l.root
